@@ -90,7 +90,7 @@ static jv *ec_obs(long value, const std::error_code &ec, int r)
 static jv *run(jv *s)
 {
   const char *op = j_str(s, "op", "");
-  mock_ret = static_cast<int>(j_int(s, "ret", 1));
+  mock_ret = static_cast<int>(j_int(s, "ret", 1)); mock_calls = 0;
   jv *out = j_mkobj();
   if (!strcmp(op, "start") || !strcmp(op, "fork") || !strcmp(op, "clone_start")) {
     jv *o = j_get(s, "o");
@@ -128,11 +128,16 @@ static jv *run(jv *s)
     rawargs.push_back(nullptr);
     reproc::process p;
     std::error_code ec; long val = 0;
+    const char *am = j_str(s, "argmode", "vec");
+    /* "held": the conversion is made first and must be a copy - the caller then overwrites and shrinks its container */
+    reproc::arguments held(av);
+    std::vector<std::string> av2 = av;
+    if (!strcmp(am, "held")) { for (auto &x : av) for (auto &ch : x) ch = '#'; av.clear(); }
     if (!strcmp(op, "fork")) { auto r = p.fork(opt); ec = r.second; val = r.first ? 1 : 0; }
     else if (!strcmp(op, "clone_start")) {
       reproc::options c = reproc::options::clone(opt);
-      ec = !strcmp(j_str(s, "argmode", "vec"), "raw") ? p.start(rawargs.data(), c) : p.start(av, c);
-    } else ec = !strcmp(j_str(s, "argmode", "vec"), "raw") ? p.start(rawargs.data(), opt) : p.start(av, opt);
+      ec = !strcmp(am, "raw") ? p.start(rawargs.data(), c) : !strcmp(am, "held") ? p.start(held, c) : p.start(av, c);
+    } else ec = !strcmp(am, "raw") ? p.start(rawargs.data(), opt) : !strcmp(am, "held") ? p.start(held, opt) : p.start(av, opt);
     j_put(out, "c", received());
     j_put(out, "res", ec_obs(val, ec, mock_ret));
     return out;
